@@ -1,2 +1,59 @@
-(* C10 -- (statements to be added) *)
-From WB Require Import Base.Str Model.Persist.
+(* C10 -- A crash during persistence never loses a completed flush nor mixes snapshots.
+   Statements only; proofs in Proofs/PersistFacts.v.  Crash model: the process dies between two
+   file operations (or inside a write, leaving half of the data in the .tmp file); completed file
+   operations persist in order.  Proved: the two steps that make the flush protocol safe, for every
+   directory content, every server state and every crash point.  PARTIAL: their composition into an
+   invariant over arbitrary event lists (flush / crash / restart chains) is validated by the
+   correspondence (complete enumeration of crash points, two-crash chains) and the recovery oracle,
+   not yet by a Coq induction; concurrent flushes (periodic task vs. shutdown) are outside the model. *)
+From WB Require Import Base.Str Base.Json Model.Key Model.Store Model.Entry Model.Core Model.Codec Model.PersistConsts Model.Persist
+  Proofs.PersistFacts.
+
+(* a flush that dies at any of the 16 crash points before the selector flip leaves the selector and
+   the four files of the active slot untouched *)
+Theorem C10_crash_before_flip_keeps_active_slot :
+  forall s d c, c < 16 ->
+    untouched (f_toggle :: slot_names (fs_has f_toggle d)) d (fst (flush (Some c) s d)) /\
+    snd (flush (Some c) s d) = true.
+Proof. exact flush_keeps_active. Qed.
+Print Assumptions C10_crash_before_flip_keeps_active_slot.
+
+(* hence the next start recovers exactly what a start without that flush would have recovered: the
+   last completed snapshot, store and registrations from the same slot, never a half-written file *)
+Theorem C10_crash_recovers_last_completed :
+  forall s d c n, c < 16 ->
+    bind (read_checked (slot_store (fs_has f_toggle d)) d) dec_persisted = Some n ->
+    option_map fst (load_v3 (fst (flush (Some c) s d))) = option_map fst (load_v3 d).
+Proof. exact crash_recovers_last_completed. Qed.
+Print Assumptions C10_crash_recovers_last_completed.
+
+(* a flush that completes -- or dies after the flip -- has switched the selector to a slot holding
+   exactly its own store and its own registrations, both with valid checksums *)
+Theorem C10_completed_flush_is_selected :
+  forall s d,
+    snd (flush None s d) = false /\
+    fs_has f_toggle (fst (flush None s d)) = negb (fs_has f_toggle d) /\
+    read_checked (slot_store (negb (fs_has f_toggle d))) (fst (flush None s d)) = Some (fst (snapshot s)) /\
+    read_checked (slot_gglw (negb (fs_has f_toggle d))) (fst (flush None s d)) = Some (snd (snapshot s)).
+Proof. exact flush_completes. Qed.
+Print Assumptions C10_completed_flush_is_selected.
+
+Theorem C10_crash_after_flip_is_complete :
+  forall s d,
+    fs_has f_toggle (fst (flush (Some 16) s d)) = negb (fs_has f_toggle d) /\
+    read_checked (slot_store (negb (fs_has f_toggle d))) (fst (flush (Some 16) s d)) = Some (fst (snapshot s)) /\
+    read_checked (slot_gglw (negb (fs_has f_toggle d))) (fst (flush (Some 16) s d)) = Some (snd (snapshot s)).
+Proof. exact crash_after_flip_is_complete. Qed.
+Print Assumptions C10_crash_after_flip_is_complete.
+
+(* non-vacuity: two flushes, the third dies with a torn checksum file; the directory still selects
+   the second snapshot *)
+Example C10_nonvacuous :
+  let s1 := final init [OSet 1 [107] (JNum [49]) false] in
+  let s2 := final s1 [OSet 1 [107] (JNum [50]) false] in
+  let s3 := final s2 [OSet 1 [107] (JNum [51]) false] in
+  let d2 := fst (flush None s2 (fst (flush None s1 []))) in
+  let d3 := fst (flush (Some 5) s3 d2) in
+  option_map (fun r => do_get (fst r) [107]) (load_v3 d3) = Some (RValue (JNum [50])) /\
+  fs_get (f_store_a ++ sfx_sum ++ sfx_tmp) d3 = Some FSumTorn.
+Proof. vm_compute. split; reflexivity. Qed.
